@@ -79,6 +79,7 @@ func init() {
 	sut.RegisterOp("c20.waitHistory", opWaitHistory)
 	sut.RegisterOp("c20.initAlerting", opInitAlerting)
 	sut.RegisterOp("c20.quiesce", opQuiesce)
+	sut.RegisterOp("c20.historyCount", opHistoryCount)
 	sut.RegisterOp("c20.notif", opNotif)
 	sut.RegisterOp("c20.setNotif", opSetNotif)
 	sut.RegisterOp("c20.metricsPut", opMetricsPut)
@@ -318,33 +319,45 @@ func opInitAlerting(r *sut.Req) (interface{}, error) {
 	return opWaitHistory(r)
 }
 
-// opQuiesce: after a create/update handler has (re-)scheduled an alert, wait (bounded) until the history has
-// stopped growing for 60 ms — the immediate evaluation has written its row — and remove the job, so that no
-// background evaluation runs while the stores are exercised. Never fails on timeout.
+// opQuiesce: after a create/update handler has (re-)scheduled an alert, wait (bounded, 3 s) until the history has
+// Ints["min"] rows — the immediate evaluation writes its row as its last action — and remove the job, so that
+// no background evaluation runs while the stores are exercised. Never fails on timeout.
 func opQuiesce(r *sut.Req) (interface{}, error) {
 	d, _, err := alertDB()
 	if err != nil {
 		return nil, err
 	}
 	res := &evalResult{}
-	last, _ := historyCount(d, r.Name)
-	stableSince := time.Now()
+	min := int(r.Ints["min"])
 	dl := time.Now().Add(3 * time.Second)
-	for time.Now().Before(dl) {
-		time.Sleep(2 * time.Millisecond)
+	for {
 		n, _ := historyCount(d, r.Name)
-		if n != last {
-			last, stableSince = n, time.Now()
-		}
-		if n > 0 && time.Since(stableSince) > 60*time.Millisecond {
+		res.Rows = n
+		if n >= min {
 			break
 		}
+		if time.Now().After(dl) {
+			res.TimedOut = true
+			break
+		}
+		time.Sleep(time.Millisecond)
 	}
-	res.Rows = last
 	if err := alertsHandler.RemoveCronJob(r.Name); err != nil {
 		return nil, err
 	}
 	return res, nil
+}
+
+func opHistoryCount(r *sut.Req) (interface{}, error) {
+	d, _, err := alertDB()
+	if err != nil {
+		return nil, err
+	}
+	n, err := historyCount(d, r.Name)
+	if err != nil {
+		return nil, err
+	}
+	return &evalResult{Rows: n}, nil
 }
 
 type notifSnap struct {
